@@ -217,13 +217,8 @@ def r2(db, rep):
                        f"{name}: the tagged address passed to from_object_like ({f.loc(b)}) does not come from "
                        f"bits::tag_pointer (48-bit check + kind mask)", loc=f.loc(b))
     rep.floor("R2", "NanBoxedValue construction sites", n, 10)
-    # tag_f64 canonicalises NaN
-    fs = [f for f in db.fns.values() if cname(f.id) == "bits::tag_f64"]
-    if rep.anchor("R2", "bits::tag_f64", fs):
-        f = fs[0]
-        has_nan_test = any(cn(t).endswith("::is_nan") for _, t in f.calls())
-        rep.ob("R2", "bits::tag_f64:is_nan-branch", has_nan_test,
-               "bits::tag_f64 no longer tests is_nan(): NaN payloads are stored verbatim", loc=f.span)
+    # (NaN canonicalisation by tag_f64 is decided by the compile-time witness R1, which evaluates it on every top-16-bit
+    #  pattern; a syntactic `calls is_nan()` test would also fire on a correct bit-mask rewrite and is deliberately absent)
 
 
 def r3(rep):
